@@ -727,7 +727,10 @@ class MarkdownNormalizer(Renderer):
         return self.render_children(element).replace("|", "\\|")
 
     def render_url(self, element: gfm_elements.Url) -> str:
-        """For GFM autolink URLs, just output the URL directly."""
+        """For GFM autolink URLs, just output the URL text as written (e.g. `www.example.com`)."""
+        children = element.children
+        if len(children) == 1 and isinstance(children[0], inline.RawText):
+            return children[0].children
         return element.dest
 
     def render_alert(
